@@ -13,7 +13,7 @@ import inspect
 import numpy as np
 
 from .. import gen, install, loops
-from ..common import shard_count
+from ..common import pick, shard_count
 from ..ctx import LoopBoundExceeded
 
 META = {
@@ -327,6 +327,9 @@ def make_case(rng, nmin, nmax):
         # round parameter values: band widths that coincide with the spacing of y values on a decimal grid
         grid = [0.05, 0.1, 0.2, 0.25, 0.5]
         dx, dy, dz = (float(grid[int(rng.integers(0, 5))]) if rng.random() < 0.7 else v for v in (dx, dy, dz))
+    if n <= 30 and rng.random() < 0.03:
+        # very fine z steps (thousands of rounds of the selection loop): the threshold must still move every round
+        dz = float(pick(rng, [0.0004, 0.0005, 0.001, 0.0002]))
     if rng.random() < 0.06:
         # the top of the documented (0, 1] domain: a band as wide as the whole axis / the whole y range
         if rng.random() < 0.5:
